@@ -146,6 +146,36 @@ def shared_file(truth_i, other_i, st, active):
         return True
 
 
+def converges(truth_i, c, active):
+    """target modules WITH surrounding code (the C11 pool: helpers, same-named assignments, coroutines ...): repeated syncs converge -
+    whatever the first two runs did, the third changes nothing and no file keeps growing"""
+    c = realize(c)
+    with untraced():
+        from harness import C11
+        from lib.fsstub import FS
+
+        tk, sur, pos, nl, st, method = C11.TABLE[c]
+        truth, target = KINDS[truth_i], KINDS[tk]
+        if truth == target:
+            return True
+        files, _ = C11.cell_files(truth_i, c)
+        fs = FS(files)
+        sizes = []
+        snaps = []
+        for _ in range(3):
+            try:
+                run_sync(fs, truth, (truth, target), method)
+            except AssertionError:
+                return True  # an unresolvable target is reported as an error every time: nothing is written (C20 covers the files)
+            snaps.append(fs.snapshot())
+        if snaps[1] == snaps[2]:
+            return True
+        if method and "KF-C09-method-created-toplevel" in active:
+            # Class.method is never found when it is absent (or when a function precedes the class: KF-C15-fnskip): appended on every run
+            return True
+        return False
+
+
 def obligations(tier, seed):
     obs = []
     for m in (0, 1):
@@ -158,6 +188,14 @@ def obligations(tier, seed):
                 "combinations, 2 interface descriptions; exhaustive over the configuration table"
                 % (KINDS[t1], "method" if m else "top-level function", 2 if tier == "quick" else 3),
                 timeout=280 if tier == "quick" else 2400, path_timeout=120, funcs=FUNCS))
+    from harness import C11
+
+    for t in range(3):
+        obs.append(Ob(name="converges_truth_%s" % KINDS[t], params=[("c", "int")], pre=["0 <= c < %d" % len(C11.TABLE)],
+                      body="H.converges(%d, c, {ACTIVE})" % t, witness=(C11.TABLE.index(((t + 1) % 3, 0, 1, 1, "agreeing", 0)),), kind="F",
+                      bounds="truth %s; the %d target-module configurations of C11 (surroundings x position x trailing newline x pre-state x "
+                      "function|method); three runs: the third must not change any byte" % (KINDS[t], len(C11.TABLE)),
+                      timeout=280 if tier == "quick" else 1200, path_timeout=120, funcs=FUNCS))
     obs.append(Ob(name="shared_truth_file", params=[("t", "int"), ("o", "int"), ("st", "int")], pre=["0 <= t <= 2 and 0 <= o <= 2", "0 <= st <= 2"],
                   body="H.shared_file(t, o, st, {ACTIVE})", witness=(1, 0, 1), kind="F",
                   bounds="one file passed under the truth's option and under another kind's option (3 x 2 kind pairs), holding only the truth / "
